@@ -37,6 +37,11 @@ def mc(ctx):
     r = ctx.tlc("ContainerProto", cfg=cfgd, workers=4, timeout=2400)
     ctx.tlc_ok("ContainerProto MC (destroy/crash)", r)
     ctx.cov["mc_loss_distinct"] = r.distinct
+    # Ping's own bound expiring (container stalled) in every state of a Ping, the late pong still arriving
+    cfgt = open(os.path.join(vlib.VERIF, "spec", "ContainerProto_MCT.cfg")).read().replace("MaxCalls = 3", "MaxCalls = %d" % calls)
+    r = ctx.tlc("ContainerProto", cfg=cfgt, workers=4, timeout=1500)
+    ctx.tlc_ok("ContainerProto MC (ping deadline, %d calls)" % calls, r)
+    ctx.cov["mc_deadline_distinct"] = r.distinct
 
 
 def gen(ctx):
